@@ -294,6 +294,7 @@ func storesToCell(cell *ssa.Alloc) []*ssa.Store {
 // OriginOpts tunes the backward value walk.
 type OriginOpts struct {
 	Depth       int  // how many static module callees' returns to descend into
+	Dynamic     bool // also descend into interface/dynamic calls when every call-graph callee is a module function
 	ThroughCall func(c *ssa.Call) []ssa.Value // optional: treat a call as a pass-through of these operands
 }
 
@@ -348,10 +349,12 @@ func (p *Prog) origins(v ssa.Value, opt OriginOpts) []ssa.Value {
 						return
 					}
 				}
-				if callee := t.Call.StaticCallee(); callee != nil && depth > 0 && inModule(callee) && len(callee.Blocks) > 0 {
-					for _, r := range returnsOf(callee) {
-						if x.Index < len(r.Results) {
-							walk(r.Results[x.Index], depth-1)
+				if cs := p.descendable(t, opt, depth); cs != nil {
+					for _, callee := range cs {
+						for _, r := range returnsOf(callee) {
+							if x.Index < len(r.Results) {
+								walk(r.Results[x.Index], depth-1)
+							}
 						}
 					}
 					return
@@ -369,10 +372,12 @@ func (p *Prog) origins(v ssa.Value, opt OriginOpts) []ssa.Value {
 					return
 				}
 			}
-			if callee := x.Call.StaticCallee(); callee != nil && depth > 0 && inModule(callee) && len(callee.Blocks) > 0 {
-				for _, r := range returnsOf(callee) {
-					if len(r.Results) > 0 {
-						walk(r.Results[0], depth-1)
+			if cs := p.descendable(x, opt, depth); cs != nil {
+				for _, callee := range cs {
+					for _, r := range returnsOf(callee) {
+						if len(r.Results) > 0 {
+							walk(r.Results[0], depth-1)
+						}
 					}
 				}
 				return
@@ -409,6 +414,32 @@ func (p *Prog) origins(v ssa.Value, opt OriginOpts) []ssa.Value {
 	}
 	walk(v, opt.Depth)
 	return out
+}
+
+// descendable returns the module callees whose return values stand for the call's result, or nil.
+func (p *Prog) descendable(c *ssa.Call, opt OriginOpts, depth int) []*ssa.Function {
+	if depth <= 0 {
+		return nil
+	}
+	if callee := c.Call.StaticCallee(); callee != nil {
+		if inModule(callee) && len(callee.Blocks) > 0 {
+			return []*ssa.Function{callee}
+		}
+		return nil
+	}
+	if !opt.Dynamic {
+		return nil
+	}
+	cs := p.Callees(c)
+	if len(cs) == 0 {
+		return nil
+	}
+	for _, f := range cs {
+		if !inModule(f) || len(f.Blocks) == 0 {
+			return nil
+		}
+	}
+	return cs
 }
 
 func inModule(fn *ssa.Function) bool {
